@@ -99,6 +99,7 @@ type CallAnn struct {
 	After   bool
 	Asserts []Clause
 	Assumes []Clause
+	Unfolds []Clause // opaque predicate instances whose definition is made available at this point
 	Ghosts  []GhostUpd
 	Line    int
 	matched bool
@@ -642,7 +643,7 @@ func parseExprString(s string) (e Expr, err error) {
 // Contract file reader
 
 var topKeywords = map[string]bool{"opaque": true, "deterministic": true, "func": true, "ghost": true, "ufunc": true, "pure": true, "pred": true, "axiom": true, "lemma": true, "type": true, "extern": true}
-var clauseKeywords = map[string]bool{"owns": true, "reveal": true, "cases": true, "dispatch": true, "requires": true, "ensures": true, "modifies": true, "serves": true, "loop": true, "invariant": true,
+var clauseKeywords = map[string]bool{"unfold": true, "owns": true, "reveal": true, "cases": true, "dispatch": true, "requires": true, "ensures": true, "modifies": true, "serves": true, "loop": true, "invariant": true,
 	"at": true, "after": true, "assert": true, "assume": true, "flag": true, "set": true}
 
 type rawLine struct {
@@ -890,7 +891,7 @@ func readSpecFile(path string, isSpec bool) (*SpecFile, error) {
 				return nil, perr(g, fmt.Errorf("clause %q outside a func contract", w))
 			}
 			switch w {
-			case "requires", "ensures", "invariant", "assert", "assume":
+			case "requires", "ensures", "invariant", "assert", "assume", "unfold":
 				label, r := stripLabel(rest)
 				e, err := parseExprString(r)
 				if err != nil {
@@ -917,6 +918,11 @@ func readSpecFile(path string, isSpec bool) (*SpecFile, error) {
 						return nil, perr(g, fmt.Errorf("assume outside 'at call'"))
 					}
 					curCall.Assumes = append(curCall.Assumes, cl)
+				case "unfold":
+					if curCall == nil {
+						return nil, perr(g, fmt.Errorf("unfold outside 'at call'"))
+					}
+					curCall.Unfolds = append(curCall.Unfolds, cl)
 				}
 			case "set":
 				// ghost update at a call site: set NAME := expr
